@@ -21,7 +21,7 @@ from mro import (call, pipeline, program, ref, split, stage, const, echo)
 
 
 def key_programs():
-    P = [p for p in shapes.catalogue(big=True) if p["name"].startswith(("keys_", "nest_", "map_nested_noret")) or p["name"] in ("map_keys", "map_dyn2")]
+    P = [p for p in shapes.catalogue(big=True) if p["name"].startswith(("keys_", "nest_", "map_nested_noret")) or p["name"] in ("map_keys", "map_dyn2", "map_dyn_static", "map_dyn_static_split")]
     sets = {"keys_mixed": ["a", "a.b", "a/b", "%2E", "..", "é", " "],
             "keys_forklike": ["fork0", "fork_a", "u0123456789", "chnk1", "1", "01"],
             "keys_prefix": ["x", "x_x", "x%5Fx", "x.x"],
